@@ -536,6 +536,11 @@ func Pow(y tensor.Tensor, x tensor.Tensor, a float64) (gctx *GradContext) {
 			{
 				target: x,
 				gradFn: func() (tensor.Tensor, error) {
+					if a == 0 {
+						// x^0 is constant: avoid 0 * x^(-1) = NaN at x = 0
+						return toZeros(x), nil
+					}
+
 					gy := y.Gradient()
 					gx := x.Pow(a - 1)
 					gx = gx.Scale(a)
